@@ -226,3 +226,12 @@ fn parse_dns_server(entry: &str) -> std::io::Result<SocketAddr> {
         format!("invalid DNS server '{}'", entry),
     ))
 }
+
+/// Verification hook: age every cache entry by `d` (moves its expiry into the past by `d`).
+#[cfg(feature = "verif")]
+pub async fn verif_age_cache(d: Duration) {
+    let mut cache = DNS_CACHE.inner.write().await;
+    for entry in cache.values_mut() {
+        entry.expires_at = entry.expires_at.checked_sub(d).unwrap_or(entry.expires_at);
+    }
+}
